@@ -26,6 +26,9 @@ pub struct Profile {
     pub w_trace: u32,
     /// refresh attempts with copies of issued user keys altered outside the library
     pub w_forge: u32,
+    /// PKE encryptions / decryptions and header generations / decryptions inside the history
+    pub w_pke: u32,
+    pub w_hdr: u32,
     /// percentage of deliberately malformed arguments
     pub malformed_pct: u32,
     /// percentage of hybridized attributes
@@ -58,6 +61,8 @@ impl Profile {
             w_ser: 0,
             w_trace: 0,
             w_forge: 0,
+            w_pke: 0,
+            w_hdr: 0,
             malformed_pct: 10,
             hybrid_pct: 30,
             matrix_often: false,
@@ -89,6 +94,9 @@ pub struct HistGen {
     next_k: usize,
     next_u: usize,
     next_e: usize,
+    next_x: usize,
+    /// per header: the authentication data it was generated with
+    hdr_ads: Vec<String>,
     next_m: usize,
     snapshots: Vec<usize>,
     pub lines: Vec<String>,
@@ -113,6 +121,8 @@ impl HistGen {
             next_k: 0,
             next_u: 0,
             next_e: 0,
+            next_x: 0,
+            hdr_ads: vec![],
             next_m: 1,
             snapshots: vec![],
             lines: vec![],
@@ -480,6 +490,66 @@ impl HistGen {
         let p = self.pol();
         self.emit(format!("encaps K{k} E{e} {p}"));
     }
+    fn rand_bytes_tok(&mut self, absent_ok: bool) -> String {
+        match self.rng.below(if absent_ok { 5 } else { 4 }) {
+            4 => "-".into(),
+            0 => "x".into(),
+            _ => {
+                let n = 1 + self.rng.below(40);
+                let b: Vec<u8> = (0..n).map(|_| self.rng.next() as u8).collect();
+                format!("x{}", crate::util::hex(&b))
+            }
+        }
+    }
+    /// a PKE encryption under some public key, or a decryption of an earlier ciphertext by some key
+    pub fn op_pke(&mut self) {
+        if self.next_k == 0 {
+            return;
+        }
+        if self.next_x == 0 || (self.next_x < 4 && self.rng.chance(1, 2)) {
+            let k = if self.rng.chance(2, 3) { self.next_k - 1 } else { self.rng.below(self.next_k) };
+            let x = self.next_x;
+            self.next_x += 1;
+            let p = self.pol();
+            let ptx = self.rand_bytes_tok(false);
+            self.emit(format!("pke_enc K{k} X{x} {p} {ptx}"));
+        } else if self.next_u > 0 {
+            let (u, x) = (self.rng.below(self.next_u), self.rng.below(self.next_x));
+            self.emit(format!("pke_dec U{u} X{x}"));
+        }
+    }
+    /// a header generation (metadata / authentication data absent, empty or not), or the opening of an earlier
+    /// header with the authentication data it was made with
+    pub fn op_hdr(&mut self) {
+        if self.next_k == 0 {
+            return;
+        }
+        if self.hdr_ads.is_empty() || (self.hdr_ads.len() < 4 && self.rng.chance(1, 2)) {
+            let k = if self.rng.chance(2, 3) { self.next_k - 1 } else { self.rng.below(self.next_k) };
+            let hh = self.hdr_ads.len();
+            let p = self.pol();
+            let md = self.rand_bytes_tok(true);
+            let ad = self.rand_bytes_tok(true);
+            self.hdr_ads.push(ad.clone());
+            self.emit(format!("hdr_gen K{k} H{hh} {p} {md} {ad}"));
+        } else if self.next_u > 0 {
+            let (u, hh) = (self.rng.below(self.next_u), self.rng.below(self.hdr_ads.len()));
+            let ad = self.hdr_ads[hh].clone();
+            self.emit(format!("hdr_dec U{u} H{hh} {ad}"));
+        }
+    }
+    /// every key against every PKE ciphertext and every header
+    pub fn final_dem_matrix(&mut self) {
+        for u in 0..self.next_u {
+            for x in 0..self.next_x {
+                self.emit(format!("pke_dec U{u} X{x}"));
+            }
+            for hh in 0..self.hdr_ads.len() {
+                let ad = self.hdr_ads[hh].clone();
+                self.emit(format!("hdr_dec U{u} H{hh} {ad}"));
+            }
+        }
+    }
     pub fn op_recaps(&mut self) {
         if self.next_k == 0 || self.next_e == 0 || self.next_e >= self.p.max_encs * 2 {
             return;
@@ -615,7 +685,7 @@ impl HistGen {
         let p = self.p.clone();
         let ws = [
             p.w_edit, p.w_update, p.w_rekey, p.w_prune, p.w_keygen, p.w_refresh, p.w_encaps, p.w_recaps,
-            p.w_roundtrip, p.w_rollback, p.w_mpk, p.w_ser, p.w_trace, p.w_forge,
+            p.w_roundtrip, p.w_rollback, p.w_mpk, p.w_ser, p.w_trace, p.w_forge, p.w_pke, p.w_hdr,
         ];
         let tot: u32 = ws.iter().sum();
         let mut r = (self.rng.next() % tot as u64) as u32;
@@ -636,7 +706,9 @@ impl HistGen {
                     10 => self.op_mpk(),
                     11 => self.op_ser(),
                     12 => self.op_trace(),
-                    _ => self.op_forge(),
+                    13 => self.op_forge(),
+                    14 => self.op_pke(),
+                    _ => self.op_hdr(),
                 }
                 if self.p.matrix_often && self.lines.len() > before && matches!(k, 5 | 6 | 7) {
                     self.emit("matrix".into());
@@ -655,6 +727,9 @@ impl HistGen {
             g.random_op();
         }
         g.emit("matrix".into());
+        if g.p.w_pke + g.p.w_hdr > 0 {
+            g.final_dem_matrix();
+        }
         g.emit("dump M0".into());
         g.lines
     }
